@@ -583,9 +583,25 @@ class StructuredGrid(Grid):
             raise ValueError("get_transform_to: grids are not compatible.")
 
         def trans(data):
-            """Transformation."""
-            # could be optimized
-            return other.from_canonical(self.to_canonical(data))
+            """Transformation (additional leading axes like time are preserved)."""
+            lead = np.ndim(data) - self.dim
+            if lead < 0:
+                raise ValueError("get_transform_to: data has wrong shape.")
+            # transposition of the spatial axes, keeping leading axes in place
+            swap = list(range(lead)) + list(range(lead, lead + self.dim))[::-1]
+            # to canonical form (xyz order) ...
+            if self.axes_reversed:
+                data = np.transpose(data, swap)
+            # ... flip axes that differ in direction ...
+            for i, (inc, o_inc) in enumerate(
+                zip(self.axes_increase, other.axes_increase)
+            ):
+                if inc != o_inc:
+                    data = np.flip(data, axis=lead + i)
+            # ... to grid specific form of the other grid
+            if other.axes_reversed:
+                data = np.transpose(data, swap)
+            return data
 
         # only use trans if grids are compatible but NOT equal
         return None if self == other else trans
